@@ -184,6 +184,8 @@ def table_scan(repo):
         problems.append("the k-th row of generate_consts! does not carry the literal k: BIN_TO_REPR (opcode -> name, used by the text writer) is positional while the id:: constants use the literal, so writer and reader would disagree on the rows out of order")
     if len(set(names)) != len(names):
         problems.append("duplicate instruction names")
+    if "end" in names:
+        problems.append("an opcode is named `end`: its argument-free line would be read by the transpiler as the end of the function (unit c18_frame assumes there is none)")
     for n in names:
         if re.search(r"\s", n) or not n:
             problems.append(f"instruction name with whitespace: {n!r}")
